@@ -68,7 +68,7 @@ NewConn(dir, st, nodeName, t, c) ==
   [used |-> TRUE, dir |-> dir, st |-> st, nodeName |-> nodeName, hostId |-> "", originHost |-> "",
    added |-> FALSE,                        \* has an ident / is (was) in the node's tables
    lastRead |-> t, lastDwr |-> -1,
-   sock |-> "open", connecting |-> FALSE, soErr |-> -1,
+   sock |-> "open", connecting |-> FALSE, soErr |-> -1, sendErr |-> FALSE,
    netIn |-> <<>>, remoteClosed |-> FALSE, recvErr |-> FALSE,
    readQ |-> <<>>, rdStop |-> FALSE, rdDone |-> FALSE, rdDl |-> t + 5, rdNew |-> TRUE,     \* New: has not reached its first queue.get yet
    writeQ |-> <<>>, wbuf |-> <<>>, wrStop |-> FALSE, wrDone |-> FALSE, wrDl |-> t + 5, wrNew |-> TRUE,
@@ -94,8 +94,14 @@ InitState ==
    overflow |-> FALSE,                     \* the instance's MaxConn bound cut a dial short (such states are discarded)
    dialPlan |-> <<>>,                      \* outcomes the environment will give to the next connect() calls
    \* the thread that called Node.stop(): phase none | begin | wait | joinio | joinstats | done
-   stop |-> [phase |-> "none", force |-> FALSE, wait |-> 0, until |-> 0, wake |-> 0, ioStop |-> FALSE],
+   stop |-> [phase |-> "none", force |-> FALSE, wait |-> 0, until |-> 0, wake |-> 0, ioStop |-> FALSE, k |-> 0],
    listen |-> "open",                      \* the listening socket
+   \* ThreadingApplication: request queue, result queue, thread slots in use, the two consumer threads, worker threads
+   tapp |-> [a \in Apps |-> [recvQ |-> <<>>, respQ |-> <<>>, slots |-> 0,
+                             recv |-> [alive |-> TRUE, st |-> "get", dl |-> 3, cur |-> <<>>, stop |-> FALSE],   \* dl: end of the current queue.get(timeout=3) / put(timeout=5)
+                             resp |-> [alive |-> TRUE, dl |-> 3, stop |-> FALSE],
+                             procs |-> <<>>]],
+   nproc |-> 0,
    out |-> <<>>]
 
 Emit(S, e) == [S EXCEPT !.out = Append(@, e)]
@@ -286,7 +292,10 @@ ReceiveAppRequest(S, c, m) ==   \* -> [S, raised]
   ELSE LET a == PickApp(S, c, m) IN
        IF a = "" THEN [S |-> SendMessage(S, c, Answer(m, 3007)), raised |-> FALSE]
        ELSE LET S1 == Emit(PwAdd(S, PwKey(S, c), PwId(m)), [ev |-> "app_req", a |-> a, c |-> c, m |-> m])
-            IN CASE AppCfg[a].handler = "hold"   -> [S |-> [S1 EXCEPT !.held = Append(@, [a |-> a, c |-> c, m |-> m, answered |-> FALSE])], raised |-> FALSE]
+            IN IF AppCfg[a].kind = "threading"       \* receive_request: queued for the application's own threads
+               THEN [S |-> [PwAdd(S, PwKey(S, c), PwId(m)) EXCEPT !.tapp[a].recvQ = Append(@, [c |-> c, m |-> m])], raised |-> FALSE]
+               ELSE
+               CASE AppCfg[a].handler = "hold"   -> [S |-> [S1 EXCEPT !.held = Append(@, [a |-> a, c |-> c, m |-> m, answered |-> FALSE])], raised |-> FALSE]
                  [] AppCfg[a].handler = "answer" -> [S |-> SubmitAnswer(S1, a, [Answer(m, 2001) EXCEPT !.app = m.app]), raised |-> FALSE]
                  [] AppCfg[a].handler = "raise"  -> [S |-> S1, raised |-> TRUE]
 
@@ -460,6 +469,7 @@ IoWrite(S, c) ==
                IF k1.wbuf = <<>>
                THEN IF k1.st = "CLOSING" /\ Drained(S1, c) THEN CloseConnectionSocket(S1, c, R_CLEAN) ELSE S1
                ELSE IF k1.sock = "closed" THEN ConnClose(S1, c, TRUE)          \* send on a closed socket: hard error -> conn.close()
+               ELSE IF k1.sendErr THEN ConnClose([S1 EXCEPT !.conn[c].sendErr = FALSE], c, TRUE)   \* send() fails hard (EPIPE): conn.close()
                ELSE LET S2 == EmitTx([S1 EXCEPT !.conn[c].wbuf = <<>>], c, k1.wbuf)
                     IN IF S2.conn[c].st = "CLOSING" /\ Drained(S2, c) THEN CloseConnectionSocket(S2, c, R_CLEAN) ELSE S2
 RECURSIVE IoWrites(_, _)
@@ -538,6 +548,85 @@ IoIter(S) ==
   IN IF S6.stop.ioStop THEN IoShutdown(S6)        \* loop top: _thread.is_stopped
      ELSE [S6 EXCEPT !.io = SelectLists(S6)]
 
+\* ------------------------------------------------------------------ ThreadingApplication (application.py)
+TApps == {a \in Apps : AppCfg[a].kind = "threading"}
+Unlimited(a) == AppCfg[a].max = 0
+\* send_answer from an application thread: NotRoutable is caught and logged (pinned F14a / F14c: it killed the thread)
+TSend(S, a, ans, who, pin) ==
+  LET r  == RouteAnswerTarget(S, ans)
+      S1 == IF r.ok THEN Emit(SendMessage(r.S, r.c, ans), [ev |-> "submit", a |-> a, m |-> ans, r |-> "ok"])
+            ELSE Emit(r.S, [ev |-> "submit", a |-> a, m |-> ans, r |-> "NotRoutable"])
+  IN IF ~r.ok /\ pin \in Pinned
+     THEN Emit(IF who = "app_resp" THEN [S1 EXCEPT !.tapp[a].resp.alive = FALSE] ELSE [S1 EXCEPT !.tapp[a].recv.alive = FALSE],
+               [ev |-> "thread_exit", th |-> who, exc |-> "NotRoutable"])
+     ELSE S1
+
+\* _wait_for_recv_msg: runs until it blocks (empty queue, or all slots taken: put(timeout=5))
+StartWorker(S, a, x) == [S EXCEPT !.tapp[a].slots = @ + 1, !.nproc = @ + 1,
+                                   !.tapp[a].procs = Append(@, [id |-> S.nproc + 1, c |-> x.c, m |-> x.m, st |-> "new", wake |-> 0]),
+                                   !.tapp[a].recv.st = "top", !.tapp[a].recv.cur = <<>>]
+RECURSIVE AppRecvRun(_, _, _)
+AppRecvRun(S, a, n) ==
+  LET T == S.tapp[a] IN
+  IF n = 0 \/ ~T.recv.alive THEN S
+  ELSE IF T.recv.st = "top"                                 \* loop top: stop test, then queue.get(timeout=3)
+  THEN IF T.recv.stop THEN [S EXCEPT !.tapp[a].recv.alive = FALSE]
+       ELSE AppRecvRun([S EXCEPT !.tapp[a].recv.st = "get", !.tapp[a].recv.dl = S.now + 3], a, n - 1)
+  ELSE IF T.recv.st = "slot"
+  THEN IF Unlimited(a) \/ T.slots < AppCfg[a].max THEN AppRecvRun(StartWorker(S, a, T.recv.cur), a, n - 1)
+       ELSE IF S.now >= T.recv.dl                           \* queue.Full: DIAMETER_TOO_BUSY
+       THEN LET ans == [Answer(T.recv.cur.m, 3004) EXCEPT !.app = T.recv.cur.m.app]
+                S1  == [S EXCEPT !.tapp[a].recv.st = "top", !.tapp[a].recv.cur = <<>>]
+            IN AppRecvRun(TSend(S1, a, ans, "app_recv", "F14c"), a, n - 1)
+       ELSE S
+  ELSE IF T.recvQ = <<>>
+  THEN IF S.now >= T.recv.dl THEN AppRecvRun([S EXCEPT !.tapp[a].recv.st = "top"], a, n - 1)     \* queue.Empty: continue
+       ELSE S
+  ELSE LET x  == Head(T.recvQ)
+           S1 == [S EXCEPT !.tapp[a].recvQ = Tail(@)]
+       IN IF Unlimited(a) \/ T.slots < AppCfg[a].max THEN AppRecvRun(StartWorker(S1, a, x), a, n - 1)
+          ELSE [S1 EXCEPT !.tapp[a].recv.st = "slot", !.tapp[a].recv.cur = x, !.tapp[a].recv.dl = S.now + 5]
+AppRecvEnabled(S, a) ==
+  LET T == S.tapp[a] IN
+  /\ a \in TApps /\ T.recv.alive
+  /\ \/ T.recv.st = "get" /\ (T.recvQ # <<>> \/ S.now >= T.recv.dl)
+     \/ T.recv.st = "top"
+     \/ T.recv.st = "slot" /\ (Unlimited(a) \/ T.slots < AppCfg[a].max \/ S.now >= T.recv.dl)
+AppRecvStep(S, a) == AppRecvRun(S, a, 50)
+
+\* _process_recv_msg in its own thread: handle_request, then the result onto the result queue
+\* (a None result still travels so that the slot is given back; pinned F14b: nothing was queued)
+ProcEnabled(S, a, i) == S.tapp[a].procs[i].st = "new" \/ (S.tapp[a].procs[i].st = "sleep" /\ S.now >= S.tapp[a].procs[i].wake)
+ProcStep(S, a, i) ==
+  LET x == S.tapp[a].procs[i]
+      ans(rc) == [Answer(x.m, rc) EXCEPT !.app = x.m.app]
+      Done(St, item) == [St EXCEPT !.tapp[a].procs[i].st = "done", !.tapp[a].respQ = IF item = <<>> THEN @ ELSE Append(@, item)]
+      S0 == IF x.st = "new" THEN Emit(S, [ev |-> "app_req", a |-> a, c |-> x.c, m |-> x.m]) ELSE S
+      h  == AppCfg[a].handler
+  IN IF x.st = "sleep" THEN Done(S0, [none |-> FALSE, m |-> ans(2001)])
+     ELSE CASE h = "answer" -> Done(S0, [none |-> FALSE, m |-> ans(2001)])
+            [] h = "raise"  -> Done(S0, [none |-> FALSE, m |-> ans(5012)])
+            [] h = "slow"   -> [S0 EXCEPT !.tapp[a].procs[i].st = "sleep", !.tapp[a].procs[i].wake = S.now + 3]
+            [] OTHER        -> Done(S0, IF "F14b" \in Pinned THEN <<>> ELSE [none |-> TRUE, m |-> ans(0)])     \* handler returns None
+
+\* _wait_for_resp_msg: gives the slot back, sends the answer; runs until its queue is empty
+RECURSIVE AppRespRun(_, _, _)
+AppRespRun(S, a, n) ==
+  LET T == S.tapp[a] IN
+  IF n = 0 \/ ~T.resp.alive THEN S
+  ELSE IF T.respQ = <<>>
+  THEN IF S.now >= T.resp.dl                                 \* queue.Empty: loop top (stop test), get again
+       THEN IF T.resp.stop THEN [S EXCEPT !.tapp[a].resp.alive = FALSE] ELSE [S EXCEPT !.tapp[a].resp.dl = S.now + 3]
+       ELSE S
+  ELSE LET x  == Head(T.respQ)
+           S1 == [S EXCEPT !.tapp[a].respQ = Tail(@), !.tapp[a].slots = IF @ > 0 THEN @ - 1 ELSE 0]
+           S2 == IF x.none THEN S1 ELSE TSend(S1, a, x.m, "app_resp", "F14a")
+       IN IF ~S2.tapp[a].resp.alive THEN S2
+          ELSE IF S2.tapp[a].resp.stop THEN [S2 EXCEPT !.tapp[a].resp.alive = FALSE]       \* loop top after the item
+          ELSE AppRespRun([S2 EXCEPT !.tapp[a].resp.dl = S.now + 3], a, n - 1)
+AppRespEnabled(S, a) == a \in TApps /\ S.tapp[a].resp.alive /\ (S.tapp[a].respQ # <<>> \/ S.now >= S.tapp[a].resp.dl)
+AppRespStep(S, a) == AppRespRun(S, a, 50)
+
 \* ------------------------------------------------------------------ Node.stop (runs in the caller's thread)
 \* send_dpr: DISCONNECTING first, then the request (cause REBOOTING)
 SendDpr(S, c) == SendNodeRequest([S EXCEPT !.conn[c].st = "DISCONNECTING"], c, "DP", 282)
@@ -549,11 +638,22 @@ StopWaitOrJoin(S) ==
   IF ~S.stop.force /\ S.connections # <<>> /\ S.now < S.stop.until
   THEN [S EXCEPT !.stop.phase = "wait", !.stop.wake = S.now + 1]
   ELSE [S EXCEPT !.stop.phase = "joinio", !.stop.ioStop = TRUE, !.stop.wake = S.now + NodeCfg.wakeup + 1]
+\* app.stop() for applications k.. in registration order: a basic application returns at once, a threading application
+\* asks its two consumer threads to stop and joins each for at most 2 s (they notice at their next queue timeout)
+RECURSIVE StopApps(_, _)
+StopApps(S, k) ==
+  IF k > Len(AppOrder)
+  THEN Emit([S EXCEPT !.stop.phase = "done"], [ev |-> "stop_done", r |-> "ok", listen |-> 0, nodeThreads |-> IF S.io.done THEN 0 ELSE 1])
+  ELSE IF AppOrder[k] \notin TApps THEN StopApps(S, k + 1)
+  ELSE [S EXCEPT !.tapp[AppOrder[k]].resp.stop = TRUE, !.tapp[AppOrder[k]].recv.stop = TRUE,
+                 !.stop.phase = "joinresp", !.stop.k = k, !.stop.wake = S.now + 2]
 StopEnabled(S) ==
   CASE S.stop.phase = "begin"     -> TRUE
     [] S.stop.phase = "wait"      -> S.now >= S.stop.wake
     [] S.stop.phase = "joinio"    -> S.io.done \/ S.now >= S.stop.wake
     [] S.stop.phase = "joinstats" -> S.now >= S.stop.wake
+    [] S.stop.phase = "joinresp"  -> ~S.tapp[AppOrder[S.stop.k]].resp.alive \/ S.now >= S.stop.wake
+    [] S.stop.phase = "joinrecv"  -> ~S.tapp[AppOrder[S.stop.k]].recv.alive \/ S.now >= S.stop.wake
     [] OTHER -> FALSE
 StopStep(S) ==
   CASE S.stop.phase = "begin" ->
@@ -563,10 +663,10 @@ StopStep(S) ==
     [] S.stop.phase = "wait" -> StopWaitOrJoin(S)
     \* the statistics thread sleeps 2 s at a time (from start, t = 0): join(2) returns at its next wake-up
     [] S.stop.phase = "joinio" -> [S EXCEPT !.stop.phase = "joinstats", !.stop.wake = IF S.now % 2 = 0 THEN S.now + 2 ELSE S.now + 1]
-    \* listening sockets closed, applications stopped, stop() returns
-    [] S.stop.phase = "joinstats" ->
-         Emit([S EXCEPT !.stop.phase = "done", !.listen = "closed"],
-              [ev |-> "stop_done", r |-> "ok", listen |-> 0, nodeThreads |-> IF S.io.done THEN 0 ELSE 1])
+    \* listening sockets closed, then the applications are stopped one after the other, then stop() returns
+    [] S.stop.phase = "joinstats" -> StopApps([S EXCEPT !.listen = "closed"], 1)
+    [] S.stop.phase = "joinresp"  -> [S EXCEPT !.stop.phase = "joinrecv", !.stop.wake = S.now + 2]
+    [] S.stop.phase = "joinrecv"  -> StopApps(S, S.stop.k + 1)
 
 \* ------------------------------------------------------------------ retained state (C19)
 RECURSIVE SumIds(_)
@@ -588,9 +688,20 @@ Idle(S) == /\ S.connections = <<>> /\ S.backlog = <<>> /\ S.pipe = <<>>
 RdReady(S) == {c \in ConnIds : RdEnabled(S, c)}
 WrReady(S) == {c \in ConnIds : WrEnabled(S, c)}
 Min(s) == CHOOSE x \in s : \A y \in s : x <= y
-AnyEnabled(S) == RdReady(S) # {} \/ WrReady(S) # {} \/ IoEnabled(S) \/ SndReady(S) # {} \/ StopEnabled(S)
+\* worker threads of the threading applications in creation order: (application order, index)
+ProcReady(S) == UNION {{<<S.tapp[AppOrder[k]].procs[i].id, k, i>> : i \in {j \in 1..Len(S.tapp[AppOrder[k]].procs) : ProcEnabled(S, AppOrder[k], j)}}
+                        : k \in {x \in 1..Len(AppOrder) : AppOrder[x] \in TApps}}
+TRecvReady(S) == {k \in 1..Len(AppOrder) : AppRecvEnabled(S, AppOrder[k])}
+TRespReady(S) == {k \in 1..Len(AppOrder) : AppRespEnabled(S, AppOrder[k])}
+AnyEnabled(S) == RdReady(S) # {} \/ WrReady(S) # {} \/ ProcReady(S) # {} \/ TRecvReady(S) # {} \/ TRespReady(S) # {}
+                 \/ IoEnabled(S) \/ SndReady(S) # {} \/ StopEnabled(S)
 StepPrio(S) == IF RdReady(S) # {} THEN RdStep(S, Min(RdReady(S)))
                ELSE IF WrReady(S) # {} THEN WrStep(S, Min(WrReady(S)))
+               ELSE IF ProcReady(S) # {}
+               THEN LET p == CHOOSE x \in ProcReady(S) : \A y \in ProcReady(S) : x[1] <= y[1]
+                    IN ProcStep(S, AppOrder[p[2]], p[3])
+               ELSE IF TRecvReady(S) # {} THEN AppRecvStep(S, AppOrder[Min(TRecvReady(S))])
+               ELSE IF TRespReady(S) # {} THEN AppRespStep(S, AppOrder[Min(TRespReady(S))])
                ELSE IF IoEnabled(S) THEN IoIter(S)
                ELSE IF SndReady(S) # {} THEN SndStep(S, Min(SndReady(S)))
                ELSE StopStep(S)
@@ -604,6 +715,7 @@ EnvConnect(S) ==      \* a remote party connects to the listening socket
 EnvFeed(S, c, chunk) == [S EXCEPT !.conn[c].netIn = Append(@, chunk)]
 EnvPeerClose(S, c) == [S EXCEPT !.conn[c].remoteClosed = TRUE]
 EnvPeerReset(S, c) == [S EXCEPT !.conn[c].recvErr = TRUE]
+EnvSendError(S, c) == [S EXCEPT !.conn[c].sendErr = TRUE]          \* the next send() on c fails with a hard error
 EnvConnectResult(S, c, err) == [S EXCEPT !.conn[c].connecting = FALSE, !.conn[c].soErr = err]
 EnvTick(S) == [S EXCEPT !.now = @ + 1]
 EnvStop(S, force, wait) == [S EXCEPT !.stop.phase = "begin", !.stop.force = force, !.stop.wait = wait]
